@@ -562,7 +562,11 @@ def cleanup_model(model: Model):
     current = {}
     newstats = []
     for s in model.statements:
-        if isinstance(s, Assignment) and s.expression.is_symbol():
+        if (
+            isinstance(s, Assignment)
+            and s.expression.is_symbol()
+            and s.symbol not in model.dependent_variables
+        ):
             current[s.symbol] = s.expression.subs(current)
         else:
             n = s.subs(current)
